@@ -36,10 +36,10 @@ def plan(tier):
     return {
         "sweeps": sweeps,
         "exhaustive": f"all byte strings of length 1..{L} over the 16-symbol alphabet x all 2^(n-1) chunkings",
-        "random": [("mutated", {"n": 200}, 12), ("flood", {"mb": 1 if tier == "quick" else 4}, 1)],
-        "runs": 1300 if tier == "quick" else None,
+        "random": [("mutated", {"n": 200}, 12), ("flood", {"mb": 1 if tier == "quick" else 4}, 1), ("link", {}, 12)],
+        "runs": 2500 if tier == "quick" else None,
         "budget_s": 60 if tier == "quick" else 900,
-        "batch": 13,
+        "batch": 25,
     }
 
 
@@ -248,6 +248,12 @@ def run_flood(params, tape):
 
 
 def run(scenario, params, tape, detail=False):
+    if scenario == "link":
+        # the receiver embedded in a live link (engine E1: host sends in flight, faulty line, reads spanning frame boundaries),
+        # compared with the reference receiver fed the same bytes; nothing may escape data_received there either
+        from .. import e1
+
+        return e1.run(params, tape, detail=detail)
     if scenario == "alpha":
         res = run_alpha(params, tape)
     elif scenario == "mutated":
